@@ -31,6 +31,7 @@ namespace
         GenCfg c;
         c.max_str = (size_t)mod(p.c(0), 400);
         c.max_elems = (size_t)mod(p.c(1), 12);
+        c.specials = true;
         return c;
     }
     std::vector<Item> items_of(const Plan &p, Api &a)
